@@ -719,7 +719,7 @@ impl<F: ChanFlavour> Sut for ChanSut<F> {
         let (hs, hr) = self.ch.handles();
         let fresh = || -> Option<u32> { (1..=self.maxv).find(|v| !self.in_use.contains(v)) };
         let _ = self.next_val;
-        loop {
+        for _attempt in 0..400 {
             let s = 1 + rng.below(self.ns);
             let r = 1 + rng.below(self.nr);
             let w = variant_name(self.wk[rng.below(self.wk.len())]);
@@ -825,5 +825,6 @@ impl<F: ChanFlavour> Sut for ChanSut<F> {
                 _ => return json!({"op": "try_recv"}),
             }
         }
+        json!({"op": "idle"})
     }
 }
